@@ -738,6 +738,9 @@ func TestVerifQuota(t *testing.T) {
 			nTraces++
 			i := len(base)
 			try := func(op vqOp) {
+				if emitted >= budget {
+					return
+				}
 				ev := r.apply(f, cs, i, op)
 				i++
 				r.emit(ev)
